@@ -256,6 +256,12 @@ impl<'a, C: Clone + Send + Debug + Serialize + 'static> ShardCtx<'a, C> {
     /// returns Some(message) if the case fails (violation)
     fn eval(&mut self, case: &C, counting: bool) -> Option<String> {
         let t0 = Instant::now();
+        if std::env::var("VERIF_TRACE").is_ok() {
+            eprintln!("TRACE[{}] {}", self.shard, (self.stage.render)(case));
+            let v = serde_json::json!({"property": std::env::var("VERIF_TRACE").unwrap_or_default(), "stage": self.stage.name, "config": "any", "case": case});
+            let _ = std::fs::create_dir_all("/tmp/sev-trace");
+            let _ = std::fs::write(format!("/tmp/sev-trace/{}.json", self.shard), serde_json::to_string(&v).unwrap());
+        }
         let out = exec_case(case, self.stage.run, self.stage.case_timeout_s);
         let dt = t0.elapsed().as_secs_f64();
         if dt > 10.0 && self.stats.slow_cases.len() < 3 {
